@@ -34,6 +34,8 @@ import (
 	"github.com/algorand/go-algorand/zz_verif_tools/vh"
 )
 
+var ndNoDouble = os.Getenv("VERIF_ND_NODOUBLE") == "1"
+
 func ndEnvInt(name string, def int) int {
 	if v, err := strconv.Atoi(os.Getenv(name)); err == nil {
 		return v
@@ -217,7 +219,7 @@ func (r *ndRun) checkWeights() error {
 	l := r.refLedger()
 	for k := 0; k < r.cfg.n; k++ {
 		for _, s := range []step{propose, soft, cert, next, next + 2, late, redo, down} {
-			pv := proposalValue{OriginalPeriod: 0}
+			pv := proposalValue{OriginalPeriod: 0, OriginalProposer: r.world.parts[k].Parent}
 			pv.BlockDigest[0] = 1
 			if s == down {
 				pv = bottom
@@ -314,7 +316,7 @@ func (r *ndRun) generateWithHolds() string {
 		for _, n := range r.nodes {
 			if n.honest && n.heldGate() != nil {
 				switch y := r.rng.Intn(100); {
-				case y < 8:
+				case y < 8 && r.mayCrash(n.id):
 					return fmt.Sprintf("crash %d", n.id)
 				case y < 11:
 					return fmt.Sprintf("unhold %d", n.id)
